@@ -188,3 +188,101 @@ Proof.
   - apply poll_src_generic; [intros n; apply some_test_nat|reflexivity|reflexivity].
   - repeat split; reflexivity.
 Qed.
+
+(* ---- connect faults: the socket of an attempt is closed exactly once or watched ---------------- *)
+Definition attempt_ok (t : nat * nat * nat) : bool :=
+  let '(cg, rt, cl) := t in
+  let closes := (cl + rt * connector_retry_closes + cg * connector_connecting_closes)%nat in
+  let watched := ((0 <? cg)%nat && connector_connecting_watches)%bool in
+  (((closes =? 1)%nat && negb watched) || ((closes =? 0)%nat && watched))%bool.
+
+Lemma connect_group_in e l : In (connect_group_of e l) (map snd l ++ [connect_default_group]).
+Proof.
+  induction l as [|[labels t] r IH]; cbn [connect_group_of map app].
+  - left. reflexivity.
+  - destruct (zmem e labels); [left; reflexivity|right; exact IH].
+Qed.
+
+Lemma all_groups_ok : forallb attempt_ok (map snd connect_groups ++ [connect_default_group]) = true.
+Proof. vm_compute. reflexivity. Qed.
+
+(* for EVERY errno (0 = success included) the one socket the attempt created is either closed
+   exactly once and not watched, or not closed and handed to a channel that watches it: never
+   leaked, never closed twice, never closed and watched *)
+Lemma connect_fault_no_leak e :
+  at_created (connect_attempt e) = 1%nat /\
+  ((at_closes (connect_attempt e) = 1%nat /\ at_watched (connect_attempt e) = false) \/
+   (at_closes (connect_attempt e) = 0%nat /\ at_watched (connect_attempt e) = true)).
+Proof.
+  split; [unfold connect_attempt; destruct (connect_group_of e connect_groups) as [[cg rt] cl]; reflexivity|].
+  pose proof (proj1 (forallb_forall _ _) all_groups_ok _ (connect_group_in e connect_groups)) as H.
+  unfold connect_attempt. destruct (connect_group_of e connect_groups) as [[cg rt] cl].
+  cbn [at_closes at_watched]. unfold attempt_ok in H.
+  apply orb_prop in H as [H|H]; apply andb_prop in H as [H1 H2]; apply Nat.eqb_eq in H1.
+  - left. apply negb_true_iff in H2. auto.
+  - right. auto.
+Qed.
+
+(* the listed transient connect faults: refused / unreachable close the socket and arm exactly one
+   retry; in-progress (and an interrupted connect) is watched for writability, nothing closed *)
+Lemma connect_listed_faults :
+  connect_attempt errno_ECONNREFUSED = mkAttempt 1 1 false 1 /\
+  connect_attempt errno_ENETUNREACH = mkAttempt 1 1 false 1 /\
+  connect_attempt errno_EINPROGRESS = mkAttempt 1 0 true 0 /\
+  connect_attempt errno_EINTR = mkAttempt 1 0 true 0 /\
+  connect_attempt 0 = mkAttempt 1 0 true 0 /\
+  sockets_connect_is_plain = true /\ connector_retry_all_closes = 1%nat.
+Proof. vm_compute. repeat split; reflexivity. Qed.
+
+(* ---- Acceptor: guards, one accept per dispatch, the idleFd_ protocol ---------------------------- *)
+Lemma acceptor_guards :
+  (forall fd, acceptor_ok_test (Z.of_nat fd) = true) /\ acceptor_ok_test (-1) = false /\
+  (forall e, acceptor_emfile_test e = (e =? errno_EMFILE)) /\
+  (forall b, acceptor_has_cb_test b = b) /\
+  acceptor_handleRead_loops = 0%nat /\ acceptor_accepts_outside_valve = 1%nat /\
+  acceptor_listen_then_enable = true /\ acceptor_dtor_closes_idle = true.
+Proof.
+  repeat split; try reflexivity.
+  intros fd. unfold acceptor_ok_test. apply Z.geb_le. lia.
+Qed.
+
+(* the EMFILE branch of the current source, run statement by statement on a listener whose spare
+   descriptor is valid: the spare descriptor is valid again, nothing is leaked, exactly one pending
+   connection (if there is one) was taken and closed - which is what C11_Model.handleRead does *)
+Lemma valve_protocol_is_model a :
+  dead a = false -> idle_ok a = true ->
+  let v := run_valve (mkValve IdleNull (pendq a) 0 0) acceptor_valve_protocol in
+  v_idle v = IdleNull /\ v_leaked v = 0%nat /\
+  fst (handleRead a (AErr errno_EMFILE)) =
+    mkAcc (v_pend v) true (handed a) (valved a + v_closed v) (open_fds a) false.
+Proof.
+  intros Hd Hi. destruct a as [p i h vl o d]. cbn [dead idle_ok pendq handed valved open_fds] in *. subst.
+  destruct p as [|n].
+  - rewrite emfile_nothing_pending by reflexivity. vm_compute. rewrite Nat.add_0_r. auto.
+  - rewrite (emfile_closes_pending _ n) by reflexivity. cbn [fst].
+    unfold run_valve, acceptor_valve_protocol. cbn [fold_left valve_step Z.eqb Pos.eqb v_idle v_pend v_closed v_leaked].
+    cbn. rewrite Nat.add_1_r. auto.
+Qed.
+
+Lemma connect_attempt_unfold : forall e,
+  connect_attempt e =
+  let '(cg, rt, cl) := connect_group_of e connect_groups in
+  mkAttempt connect_creates_sockets
+            (cl + rt * connector_retry_closes + cg * connector_connecting_closes)
+            ((0 <? cg)%nat && connector_connecting_watches)
+            rt.
+Proof. reflexivity. Qed.
+
+Lemma valve_step_unfold : forall v code,
+  valve_step v code =
+  let lost := match v_idle v with IdleClosed => 0%nat | _ => 1%nat end in
+  if code =? 1 then
+    mkValve IdleClosed (v_pend v) (match v_idle v with IdleConn => S (v_closed v) | _ => v_closed v end) (v_leaked v)
+  else if code =? 2 then
+    match v_pend v with
+    | O => mkValve IdleClosed O (v_closed v) (v_leaked v + lost)
+    | S n => mkValve IdleConn n (v_closed v) (v_leaked v + lost)
+    end
+  else if code =? 3 then mkValve IdleNull (v_pend v) (v_closed v) (v_leaked v + lost)
+  else v.
+Proof. reflexivity. Qed.
